@@ -5,6 +5,7 @@ package props
 // Build. Reference models walk the descriptor, never the Go value.
 
 import (
+	"encoding/json"
 	"errors"
 	"fmt"
 	"math"
@@ -433,4 +434,42 @@ func sortedKeysOf(m map[string]int) []string {
 	}
 	sort.Strings(ks)
 	return ks
+}
+
+func timeSeconds(n int64) time.Duration { return time.Duration(n) * time.Second }
+
+func jsonString(v any) (string, error) {
+	b, err := json.Marshal(v)
+	return string(b), err
+}
+
+// descVal: compact human-readable form of a descriptor for messages
+func descVal(v Val) string {
+	switch {
+	case v.K == "" || v.K == "nil":
+		return "nil"
+	case v.K == "str":
+		return fmt.Sprintf("%q", v.Str())
+	case v.IsUintKind():
+		return fmt.Sprintf("%s(%d)", v.K, v.U)
+	case v.IsIntKind():
+		return fmt.Sprintf("%s(%d)", v.K, v.I)
+	case v.IsFloatKind():
+		return fmt.Sprintf("%s(%s)", v.K, v.F)
+	case v.K == "bool":
+		return fmt.Sprint(v.Bo)
+	}
+	var parts []string
+	for i, e := range v.E {
+		if i < len(v.Ks) {
+			parts = append(parts, descVal(v.Ks[i])+":"+descVal(e))
+		} else {
+			parts = append(parts, descVal(e))
+		}
+	}
+	extra := ""
+	if v.S != "" || v.B != nil {
+		extra = fmt.Sprintf("%q", v.Str())
+	}
+	return v.K + "[" + extra + strings.Join(parts, ",") + "]"
 }
